@@ -352,6 +352,11 @@ func runC07(env *vk.Env) {
 		}
 		if v.Bad.Verdict != "none" && v.Bad.Verdict != "" {
 			scs = append(scs, frameScenario{Kind: "bad", Thr: v.Thr, ID: i, Bad: &frameBad{Thr: v.Thr, Plen: v.Bad.Plen, Dlen: v.Bad.Dlen, Idlen: v.Bad.Idlen, Infl: v.Bad.Infl}})
+			if v.Thr >= 0 && v.Bad.Dlen > 0 && v.Bad.Dlen < 64 {
+				// the same header over a stream that really holds the whole id and more than declared: the declared
+				// size is then the only thing that is wrong
+				scs = append(scs, frameScenario{Kind: "bad", Thr: v.Thr, ID: i + 500000, Bad: &frameBad{Thr: v.Thr, Plen: v.Bad.Plen, Dlen: v.Bad.Dlen, Idlen: v.Bad.Idlen, Infl: v.Bad.Dlen + v.Bad.Idlen + 3}})
+			}
 			env.Distinct(fmt.Sprintf("bad/thr%d/%s", v.Thr, v.Bad.Verdict))
 			continue
 		}
